@@ -6,8 +6,9 @@ CONFIG = {
                 "read equals the last-write-wins read of the acknowledged history (one point per timestamp, latest acknowledged value, sorted); a point "
                 "conflicting with a field's recorded type is dropped and counted (Partial n) while the other points are stored and reads are those of the "
                 "other points only; all stored values of a field share its recorded type; re-writing identical points changes no read. The model is "
-                "diffed on every run against a real tsdb.Shard (WAL on, explicit snapshots/compactions/deletes/reopen, reads through Shard.CreateIterator "
-                "and CreateCursorIterator in both directions) and the implementation's reads are compared with the LWW spec of the acknowledged history.",
+                "diffed on every run against a real tsdb.Shard (WAL on, explicit snapshots/compactions/deletes/reopen); EVERY read is taken through both read "
+                "paths - the InfluxQL iterator (Shard.CreateIterator) and the array cursors (Shard.CreateCursorIterator, five types) - ascending and "
+                "descending, and both observations are compared with the LWW spec of the acknowledged history.",
         "note": "Trusts Coq kernel/vm_compute, the harness and its canonicalisers (long reads are compared by length, first/last 8 points and three "
                 "polynomial digests). Layer A only: block layout/KeyCursor merging, TSM/WAL bytes, the series index and key escaping are covered by the "
                 "differential run, not by a theorem. Delete during an in-flight snapshot is excluded (C10 finding; refutation lemma included).",
@@ -25,8 +26,10 @@ CONFIG = {
             "read from inside a block in both directions), then seeded random histories: 6-20 ops among write (1-28 points, 1-3 fields, five types, extreme values, "
             "duplicate and out-of-order timestamps, 7% fields of a conflicting type, 10% identical re-writes), runs (3-15 points, or 999/1000/1001/2001 in every 12th "
             "history), snapshot (atomic or begin...commit with reads and writes in between), compaction of a random contiguous group (full or fast, "
-            "Compactor.Size in {default,2,3,5}), range delete (point, short, open-ended, influxql Min/MaxTime, full int64), reopen, reads (iterator or array cursor, asc/desc, "
-            "full range or windows on/inside block boundaries), inmem and tsi1 index; a final sweep of reads. distinct = distinct history; "
+            "Compactor.Size in {default,2,3,5}), range delete (point, short, open-ended, influxql Min/MaxTime, full int64), reopen, reads (each through the InfluxQL iterator AND the array cursor, asc/desc, "
+            "full range or windows on/inside block boundaries, results longer than one 1000-slot cursor batch with cache values before/inside a TSM block), "
+            "batches in which several points introduce the same new field followed by a tsi1 restart, dense histories (runs of 12-40 points per generation, "
+            "spread starts: chains of overlapping files, >12 blocks per key), inmem and tsi1 index; a final sweep of reads. distinct = distinct history; "
             "non-trivial = at least one acknowledged write and one non-empty read",
     "trusted_base": [
         "C02: layer A model: a file is its per-key sorted values + tombstone ranges; blocks, KeyCursor seek/next and block merging (file_store.gen.go), the TSM/WAL bytes, "
@@ -38,6 +41,8 @@ CONFIG = {
         "C02: reads longer than 40 points are canonicalised by the harness to (length, first 8, last 8, three polynomial digests mod 2^31-1) and compared with the "
         "same digest of the spec read computed inside Coq with primitive 63-bit integers; shorter reads are compared point by point",
         "C02: Run.v evaluates spec_read_fast2 / shard_read_fast; theorems run_evaluates_the_spec / run_evaluates_the_model prove them equal to spec_read / shard_read",
+        "C02: both read paths are covered: every read op is executed through Shard.CreateIterator and through Shard.CreateCursorIterator (tsdb.CursorIterator -> "
+        "Float/Integer/Unsigned/String/Boolean array cursors); when the two canonical observations are identical one term is evaluated in Coq, otherwise both",
         "C02: read ranges are those the query API supports (influxql.MinTime..MaxTime and sub-ranges); written timestamps are those models.NewPoint accepts "
         "(MinNanoTime..MaxNanoTime), the theorems assume int64 timestamps",
         "C02: hook tsdb/engine/tsm1/verif_export_c02.go (build tag verif) splits Engine.WriteSnapshot into its two halves so that reads can be observed while a snapshot is in flight",
